@@ -9,7 +9,7 @@ Init == l = 1
 StepCase(e) == e.ev = "case"
 RowDetail(e, k) ==
   IF k = 0 THEN [ev |-> "row", ty |-> e.ty, ch |-> e.ch, fix |-> e.fix, k |-> 0, bits |-> e.bits]
-  ELSE LET nb == StorageBytes(Types[e.ty]) IN
+  ELSE LET nb == IF e.bits <= 8 THEN 1 ELSE e.bits \div 8 IN
        [ev |-> "row", ty |-> e.ty, ch |-> e.ch, fix |-> e.fix, k |-> k, arg |-> e.a0 + k - 1,
         raw |-> e.raw[k], sto |-> e.sto[k], col |-> ObsCol(Types[e.ty], e, k),
         be |-> SubSeq(e.be, (k - 1) * nb + 1, k * nb), le |-> SubSeq(e.le, (k - 1) * nb + 1, k * nb),
@@ -19,10 +19,16 @@ BinDrift(e) ==
   IF e.ty = "BinaryColor" /\ \E k \in 1..e.n : e.raw[k] # e.c1[k]
   THEN PrintT("DRIFT " \o ToJson([module |-> "EGColor", what |-> "BinaryColor raw value differs from is_on()", raw |-> e.raw, on |-> e.c1]))
   ELSE TRUE
+\* the raw type of a colour type is part of the table of EGColor, not of the property: drift only
+BitsDrift(e) ==
+  IF e.bits # Types[e.ty].raw
+  THEN PrintT("DRIFT " \o ToJson([module |-> "EGColor", what |-> "BITS_PER_PIXEL differs from the table", ty |-> e.ty, bits |-> e.bits]))
+  ELSE TRUE
 StepRow(e) ==
   /\ e.ev = "row"
   /\ LET r == RowFails(e) IN Report(e.case, r.codes, RowDetail(e, r.k))
   /\ BinDrift(e)
+  /\ BitsDrift(e)
 StepRawRow(e) ==
   /\ e.ev = "rawrow"
   /\ LET r == RawRowFails(e) IN
